@@ -141,6 +141,8 @@ class Scenario:
         if self.narrow == "smallint":
             area_arg, m0_arg = numpy.uint8(int(self.area)), numpy.int16(int(self.m0))
         self.plot_after = rng.random() < 0.1
+        if rng.random() < 0.06:
+            self.pv = gen.retargeted(rng, self.membrane, self.mix)
         self.conditions = Conditions(
             membrane_area=area_arg, initial_feed_temperature=self.t0, initial_feed_amount=m0_arg,
             initial_feed_composition=self.x0, permeate_temperature=self.tp, permeate_pressure=self.pp,
